@@ -75,6 +75,7 @@ func checkC12(w *World, r *Report) {
 	r.Rule("C12.fields", "P8", "every field of each module's GenesisState is assigned in ExportGenesis (from keeper state) and read on the InitGenesis tree", 8)
 	r.Rule("C12.validate", "P5", "each module's ValidateGenesis reaches GenesisState.Validate, which reaches the Validate of the parameters and of every element type that has one", 8)
 	r.Rule("C12.lossless", "P8", "the unit conversion applied on export has its inverse applied on import: every unit UnitsFromDuration can return is handled by DurationFromUnits with the same factor", 4)
+	r.Rule("C12.sameshape", "P7", "a record has two accepted shapes when export nils out a pointer field that the runtime keeps non-nil (the burn state's Account): on the block trees no effectful call may be reachable for one shape and unreachable for the other, i.e. effects must not be control-dependent on the nil-ness of that field", 1)
 	r.Rule("C12.shape", "P8,P5", "= C10.maybenil for fields that export sets to nil: what ExportGenesis writes must be dereferenceable by the block routines", 1)
 	if !ro.checkFloors(r) {
 		return
@@ -306,5 +307,139 @@ func checkC12(w *World, r *Report) {
 			continue
 		}
 		w.checkMayBeNil(r, "C12.shape", nf, flatten(ro.BLK), c10VettedNil)
+		w.checkSameShape(r, "C12.sameshape", nf, flatten(ro.BLK))
+	}
+}
+
+// checkSameShape: in every function on the tree that tests the nil-ness of the two-shaped field, the set of
+// live effectful call sites is the same under "field == nil" and "field != nil" (the correlated flag, if any,
+// fixed to the value under which nil is accepted).
+func (w *World) checkSameShape(r *Report, rule string, nf nilField, roots []*ssa.Function) {
+	cg := w.CG()
+	reach := cg.Reach(roots)
+	isField := func(v ssa.Value) bool {
+		T, f, ok := fieldOfValue(v)
+		if ok && f == nf.Field && T.Obj() == nf.T.Obj() {
+			return true
+		}
+		// a local copy: account := state.Account
+		if phi, ok := v.(*ssa.Phi); ok {
+			for _, e := range phi.Edges {
+				T, f, ok := fieldOfValue(e)
+				if !(ok && f == nf.Field && T.Obj() == nf.T.Obj()) {
+					return false
+				}
+			}
+			return len(phi.Edges) > 0
+		}
+		return false
+	}
+	isCorr := func(v ssa.Value) bool {
+		if nf.CorrField == "" {
+			return false
+		}
+		T, f, ok := fieldOfValue(v)
+		return ok && f == nf.CorrField && T.Obj() == nf.T.Obj()
+	}
+	effectful := map[*ssa.Function]int{}
+	var hasEffect func(f *ssa.Function) bool
+	hasEffect = func(f *ssa.Function) bool {
+		switch effectful[f] {
+		case 1:
+			return true
+		case 2, 3:
+			return false
+		}
+		effectful[f] = 3
+		res := false
+		for _, s := range cg.Sites[f] {
+			a := cg.Atom(s)
+			if isStateEffect(a) || a == EventEmit {
+				res = true
+			}
+			for _, c := range s.Callees {
+				if hasEffect(c) {
+					res = true
+				}
+			}
+		}
+		if res {
+			effectful[f] = 1
+		} else {
+			effectful[f] = 2
+		}
+		return res
+	}
+	n := 0
+	var fns []*ssa.Function
+	for f := range reach {
+		if w.isProdFunc(f) {
+			fns = append(fns, f)
+		}
+	}
+	sort.Slice(fns, func(i, j int) bool { return funcName(fns[i]) < funcName(fns[j]) })
+	for _, fn := range fns {
+		tests := false
+		for _, b := range fn.Blocks {
+			if i := blockIf(b); i != nil {
+				base, _ := stripNot(i.Cond)
+				if bo, ok := base.(*ssa.BinOp); ok && (bo.Op == token.EQL || bo.Op == token.NEQ) {
+					if (isNilConst(bo.Y) && isField(bo.X)) || (isNilConst(bo.X) && isField(bo.Y)) {
+						tests = true
+					}
+				}
+			}
+		}
+		if !tests {
+			continue
+		}
+		n++
+		mk := func(isNil bool) CondFn {
+			return func(base ssa.Value) (bool, bool) {
+				if bo, ok := base.(*ssa.BinOp); ok && (bo.Op == token.EQL || bo.Op == token.NEQ) {
+					var o ssa.Value
+					if isNilConst(bo.Y) {
+						o = bo.X
+					} else if isNilConst(bo.X) {
+						o = bo.Y
+					}
+					if o != nil && isField(o) {
+						if bo.Op == token.EQL {
+							return isNil, true
+						}
+						return !isNil, true
+					}
+				}
+				if isCorr(base) {
+					return !nf.CorrVal, true // the flag value under which nil is an accepted shape
+				}
+				return false, false
+			}
+		}
+		liveNil, liveSet := ReachUnder(fn, mk(true)), ReachUnder(fn, mk(false))
+		bad := 0
+		for _, s := range cg.Sites[fn] {
+			eff := isStateEffect(cg.Atom(s)) || cg.Atom(s) == EventEmit
+			for _, c := range s.Callees {
+				if hasEffect(c) {
+					eff = true
+				}
+			}
+			if !eff {
+				continue
+			}
+			a, b := liveNil.LiveInstr(s.Instr), liveSet.LiveInstr(s.Instr)
+			if a != b {
+				bad++
+				r.Bad(rule, fmt.Sprintf("%s.%s: effect %s in %s", nf.T.Obj().Name(), nf.Field, s.Method, funcName(fn)), w.Pos(s.Instr.Pos()),
+					fmt.Sprintf("this effect is reachable when %s.%s is %s but not when it is %s: a record restored from an exported genesis (nil) is processed differently from the one the runtime created (non-nil)", nf.T.Obj().Name(), nf.Field, map[bool]string{true: "nil", false: "set"}[a], map[bool]string{true: "nil", false: "set"}[b]))
+			}
+		}
+		if bad == 0 {
+			r.OK(rule, fmt.Sprintf("%s.%s: nil test in %s", nf.T.Obj().Name(), nf.Field, funcName(fn)), w.Pos(fn.Pos()), "the same effectful calls are live for both shapes")
+		}
+	}
+	if n == 0 {
+		r.OK(rule, fmt.Sprintf("%s.%s: no effectful function branches on its nil-ness", nf.T.Obj().Name(), nf.Field), "", "no nil test of the field on the block trees guards an effect")
 	}
 }
